@@ -1,18 +1,73 @@
-"""C03: SDS hyperslabs (mfsd.c, putget.c, var.c)"""
+"""C03: SDS hyperslabs (mfsd.c, putget.c, var.c)
+
+Tool limits that shaped the modes (all measured, see the unit comments):
+  * symbolic x symbolic products (record length x numrecs, dsizes x coords, stride x edge) only
+    close when one factor is a constant or both sides of a comparison use literally the same
+    product -> element size / record length are constants per obligation (C03_W, C03_RECLEN);
+  * heap vectors of symbolic length cost ~150 K SAT variables per unwinding: rank <= 32 by
+    unwinding exhausts 10 GB; the unwound obligations are bounded (rank <= 4), the loop-contract
+    obligation NCcoordck covers every rank;
+  * A-GUARD: see putget_u.c (pointer one before the vector is formed by the real loops).
+"""
 from .core import ob, prop
 
 PG = dict(unit="putget_u.c", file="mfhdf/src/putget.c", objbits=8)
 CK_TRUST = ["hdf_get_vp_aid", "Hseek", "Hwrite", "DFKconvert", "HDmemfill", "NC_arrayfill", "NC_findattr", "strstr"]
-ob("NCcoordck", "C03", entry="h_NCcoordck", enforce="H4_NCcoordck", mode="proved",
-   replace=["hdf_get_vp_aid"], loops=True, nloops=3, loopcls="P", unwind=34, cex_unwind=34, trusted=CK_TRUST, **PG)
+
+# NCcoordck: every loop closed by a loop contract, rank 1..32, any coordinates / numrecs / flags.
+# Only the record length is a constant (24 bytes, 4-byte elements): numrecs*len is symbolic x symbolic.
+ob("NCcoordck", "C03", entry="h_NCcoordck", enforce="H4_NCcoordck", mode="bounded",
+   bound="record length 24 bytes, element size 4 (rank 1..32, coordinates, numrecs, flags unbounded; loops closed by contracts)",
+   replace=["hdf_get_vp_aid"], loops=True, nloops=3, loopcls="P", unwind=34, cex_unwind=10, defines=["C03_RECLEN=24"],
+   timeout=900, trusted=CK_TRUST, **PG)
+# the existential direction (FALSE only for an invalid request) needs the loops unwound
 ob("NCcoordck_verdict", "C03", entry="h_NCcoordck_verdict", enforce="H4_NCcoordck", mode="bounded",
-   bound="at most 2 fill records per call (rank <= 32 is complete: loops unwound 34 times)",
-   replace=["hdf_get_vp_aid"], unwind=34, cex_unwind=34, trusted=CK_TRUST, **PG)
-ob("NC_varoffset", "C03", entry="h_NC_varoffset", enforce="NC_varoffset", mode="bounded",
-   bound="rank<=3, extents<=8, record index<=8, element size in {1,2,4,8}", unwind=5, cex_unwind=5,
-   defines=["MAXR=3"], **PG)
-ob("NCvcmaxcontig", "C03", entry="h_NCvcmaxcontig", enforce="NCvcmaxcontig", mode="proved-finite", unwind=34,
-   cex_unwind=34, **PG)
+   bound="rank<=4, at most 2 fill records per call, record length 24 bytes",
+   replace=["hdf_get_vp_aid"], unwind=7, cex_unwind=10, defines=["MAXR=4", "C03_RECLEN=24"], timeout=900,
+   trusted=CK_TRUST, **PG)
+
+for w in (1, 2, 4, 8):
+    ob(f"NC_varoffset_w{w}", "C03", entry="h_NC_varoffset", enforce="NC_varoffset", mode="bounded",
+       bound=f"rank<=3, extents<=8, record index<=8, element size {w}", unwind=5, cex_unwind=10,
+       defines=["MAXR=3", f"C03_W={w}"], tier="quick" if w == 4 else "thorough", **PG)
+ob("NC_varoffset_inj", "C03", entry="h_NC_varoffset_inj", mode="bounded",
+   bound="rank<=3, extents<=8, record index<=8, element size 4", unwind=5, cex_unwind=10,
+   defines=["MAXR=3", "C03_W=4"], timeout=900, **PG)
+
+ob("NCvcmaxcontig", "C03", entry="h_NCvcmaxcontig", enforce="NCvcmaxcontig", mode="bounded",
+   bound="rank<=4 (loops unwound; rank 32 exhausts memory)", unwind=6, cex_unwind=10, defines=["MAXR=4"], **PG)
+
+GT = dict(unit="mfsd_gate_u.c", file="mfhdf/src/mfsd.c", objbits=8,
+          trusted=["NC_check_id", "HCPgetcomptype", "HCget_config_info", "Hendaccess", "NCvario(stub)", "NCgenio(stub)"])
+ob("SDreaddata_gate", "C03", entry="h_SDreaddata_gate", mode="bounded", bound="rank 1..4, dataset ids only",
+   unwind=6, cex_unwind=10, defines=["MAXR=4"], timeout=900, **GT)
+ob("SDwritedata_gate", "C03", entry="h_SDwritedata_gate", mode="bounded", bound="rank 1..4, dataset ids only",
+   unwind=6, cex_unwind=10, defines=["MAXR=4"], timeout=900, **GT)
+# rank-0 datasets (SDcreate accepts rank 0): expected to FAIL on the unchanged tree -- SDreaddata
+# dereferences var->shape[0] (NULL for scalars) when a stride vector is given.  Defect candidate.
+ob("SDreaddata_gate_scalar", "C03", entry="h_SDreaddata_gate_scalar", mode="bounded",
+   bound="rank 0..2, dataset ids only", unwind=4, cex_unwind=10, defines=["MAXR=2"], tier="thorough", **GT)
+
 ob("NC_var_shape", "C03", unit="var_u.c", file="mfhdf/src/var.c", entry="h_NC_var_shape", enforce="H4_NC_var_shape",
-   mode="bounded", bound="rank<=3, <=4 dimensions, dimension sizes<=8, element size in {1,2,4,8}", unwind=6,
-   cex_unwind=6)
+   mode="bounded", bound="rank<=3, <=4 dimensions, dimension sizes<=8, element size 4", unwind=6,
+   cex_unwind=10, defines=["C03_W=4"], tier="thorough", objbits=8)
+
+prop("C03",
+     residual="composition over histories of writes/reads; the NCvario/NCgenio odometers (run decomposition, "
+              "row-major order, exactly-once coverage) are not under contract; first-write leading/trailing fill "
+              "and type conversion in hdf_xdr_NCvdata; fill-value selection and fill-record contents; position "
+              "numrecs*reclen of the fill records; persistence across SDend/SDstart; netCDF/CDF file types; "
+              "dimension ids passed to SDreaddata/SDwritedata; ranks above the stated bounds in the unwound "
+              "obligations; NC_var_shape (obligation exhausts memory, thorough tier only)",
+     assumptions=["A-GUARD: every dimension vector (and every heap block NC_var_shape allocates) is preceded by "
+                  "at least one addressable element: the real loops form the address one element before the "
+                  "vector (`for (; ip >= boundary; ip--)`), undefined in ISO C",
+                  "A-XDR/H-layer: Hseek/Hwrite/DFKconvert/HDmemfill/NC_arrayfill/NC_findattr/hdf_get_vp_aid are "
+                  "fallible stubs; NCvario/NCgenio are stubs in the gate unit",
+                  "SD API only: cdf_routine_name is SDreaddata/SDwritedata, file_type == HDF_FILE, "
+                  "coordinates/edges/strides are int32 values, extents <= INT32_MAX"])
+
+# Without A-GUARD: exhibits the undefined pointer-before-array idiom (expected to FAIL on the
+# unchanged tree: "pointer relation: pointer outside object bounds in shp", putget.c:1544).
+ob("NCvcmaxcontig_strictptr", "C03", entry="h_NCvcmaxcontig", enforce="NCvcmaxcontig", mode="bounded",
+   bound="rank<=2", unwind=4, cex_unwind=10, defines=["MAXR=2", "C03_STRICT_PTR"], tier="thorough", **PG)
